@@ -883,3 +883,63 @@ func runC18_7(c *core.Ctx) {
 		}
 	}
 }
+
+func init() {
+	register(&core.Rule{ID: "C18.12", Prop: "C18", MinSites: 1,
+		Desc: "a connection that left the registry gets its descriptor closed whatever else fails: in eventloop.close every return reachable after connections.delConn(c) has passed unix.Close(c.fd) – a failing poller.Delete, a failed flush or the handler's action cannot skip it, since nothing can find the connection again to close it later (the descriptor leaks for the life of the process and the peer never sees the end of the stream)",
+		Run:  runC18_12})
+	alias("C07", "C07.20", "C18.12", "a descriptor whose owner has been dropped from every table must be closed on that path")
+}
+
+func runC18_12(c *core.Ctx) {
+	v := vocabOf(c)
+	if v == nil {
+		return
+	}
+	f := fnOf(c, v.closeFn)
+	if f == nil || v.delConn == nil {
+		return
+	}
+	const (
+		fRemoved = 1 << iota
+		fClosed
+	)
+	isClose := func(call *ast.CallExpr) bool {
+		return flow.IsPkgFunc(f.Info, call, unixPkg, "Close") && len(call.Args) == 1 && flow.FieldOf(f.Info, seeThrough(f, call.Args[0])) == v.fdF
+	}
+	// may-analysis for "removed", must-analysis for "closed": two problems
+	may := &flow.Problem{Must: false}
+	may.Node = func(b *flow.Block, i int, n ast.Node, in uint64) uint64 {
+		for _, call := range flow.Calls(n) {
+			if flow.IsCall(f.Info, call, v.delConn) {
+				in |= fRemoved
+			}
+		}
+		return in
+	}
+	must := &flow.Problem{Must: true}
+	must.Node = func(b *flow.Block, i int, n ast.Node, in uint64) uint64 {
+		for _, call := range flow.Calls(n) {
+			if isClose(call) {
+				in |= fClosed
+			}
+		}
+		return in
+	}
+	g := f.Graph()
+	ms, cs := g.Solve(may), g.Solve(must)
+	k := 0
+	removedSomewhere := false
+	for _, b := range g.Exits() {
+		if ms.Out(b)&fRemoved == 0 {
+			continue // the stale-connection return before anything happened
+		}
+		removedSomewhere = true
+		k++
+		c.Check(cs.Out(b)&fClosed != 0, f.Name, "descriptor closed before return #"+itoa(k), b.Return.Pos(), "unix.Close(c.fd) on every path from delConn to this return",
+			"eventloop.close can return after delConn(c) without having called unix.Close(c.fd) (a failing step in between returns early): the connection is in no table any more, so nothing ever closes its descriptor – it leaks until the process exits and the peer never sees FIN/RST")
+	}
+	if !removedSomewhere {
+		c.Violate(f.Name, "delConn in close", f.Decl.Pos(), "eventloop.close never reaches a return after delConn: the rule lost its subject")
+	}
+}
